@@ -2,7 +2,7 @@ CHECK = dict(
     harness="c17_index.cpp",
     sources=[],   # multidim_index_sequence.h, for_each.h and Array3D.h are header-only (loadRAW/mmapRAW are not used)
     variants=[dict(name="asan", flavour="asan")],
-    floor={"asan:multislice_views": 50, "asan:multislice_thick_or_view_slices": 100, "asan:accessor_region_ranges": 200, "asan:multislice_checked_after_callers_vector_changed": 50},
+    floor={"asan:multislice_views": 50, "asan:multislice_thick_or_view_slices": 100, "asan:accessor_region_ranges": 200, "asan:value_ranges_asked_again_after_a_write": 50, "asan:multislice_checked_after_callers_vector_changed": 50},
     assumptions=["128-bit reference index arithmetic in harness/c17_index.cpp is correct",
                  "extents whose true product exceeds 2^62 are outside the quantifier (the 64-bit result cannot hold them)",
                  "adaptors are read at valid coordinates only (their contract); clamping is asserted for ActualArray3D and, "
